@@ -95,22 +95,17 @@ def identity_predicates(ck, facts, R):
                     if cb is not None and cb.thir is not None:
                         return leaf(cb.thir, depth + 1)
             return {"other"}
-        ms = []
-        for t in roots:
-            ms += enum_matches(t, "chalk_ir::GenericArgData")
-        if not ms:
+        # the per-argument test = the body (function or closure) that looks at the argument's GenericArgData; what it RETURNS is
+        # decided by leaves that are `false` or an equality with the position - wherever the match on the kind sits inside it
+        tests = [t for t in roots if enum_matches(t, "chalk_ir::GenericArgData")]
+        if not tests:
             ck.violation(R, inst + ":per-argument-test", b.where(), "no match on GenericArgData and no call to is_identity_subst")
             continue
         allv = set()
-        bad = None
-        for m in ms:
-            for a in m["arms"]:
-                lv = leaf(a["body"])
-                allv |= lv
-                if "other" in lv and bad is None:
-                    bad = a
-        if bad is not None or "pos" not in allv:
-            ck.violation(R, inst + ":every-leaf-compares-with-own-position", b.where((bad or {}).get("ln")),
+        for t in tests:
+            allv |= leaf(t)
+        if "other" in allv or "pos" not in allv:
+            ck.violation(R, inst + ":every-leaf-compares-with-own-position", b.where(),
                          "an argument counts as trivial without its bound variable being compared with the argument's position")
         else:
             ck.ok(R, inst + ":every-leaf-compares-with-own-position", "position variables: %s" % sorted(idx))
